@@ -201,7 +201,20 @@ func CheckVDR(o *Obs, p *pgen.Program, m *pgen.Model, r *Report, mode string, tr
 		if info.IsDir() && jobTmpRe.MatchString(path) {
 			// only jobs that were actually executed have a temporary directory of their own
 			rel, _ := filepath.Rel(ps, filepath.Dir(path))
-			if _, ran := o.Jobs[vrun.StripUniq(rel)]; !ran {
+			j, ran := o.Jobs[vrun.StripUniq(rel)]
+			if !ran {
+				return nil
+			}
+			// ... and only in the attempt directory in which the job was
+			// started: a directory an interrupted mrp created for an attempt
+			// that never ran belongs to no job
+			startedHere := false
+			for _, st := range j.Starts {
+				if filepath.Clean(st.Meta) == filepath.Clean(filepath.Dir(path)) {
+					startedHere = true
+				}
+			}
+			if !startedHere {
 				return nil
 			}
 			st.TmpDirsChecked++
